@@ -621,3 +621,22 @@ def gen_ascii_history(rng, length, full_shape=True, stock=False):
         else:
             ops += [o for o in gen_api_history(rng, 3, stock=stock) if full_shape or not o.startswith("opt full_shape")]
     return ops[:length]
+
+
+def gen_back_syllable_history(rng, stock):
+    """round 4: multi-character pops (Editor::BackToPreviousSyllable = Control+BackSpace, Shift+BackSpace through the fallback)
+    with the caret moved left of the end first - on phrases with syllable spans (stock) and on the synthetic schemas"""
+    words = ["nihao", "nihaoa", "zhongguo", "women", "shijie", "nihaoshijie", "womende", "xiexie", "hao"] if stock else \
+            ["abcde", "hello", "xyzzy", "aaaaaa", "uvw"]
+    ops = []
+    for _ in range(rng.randrange(1, 4)):
+        w = rng.choice(words) + rng.choice(["", "", "a", "o", "n"])
+        ops += [key(ord(c)) for c in w]
+        for _ in range(rng.choice([0, 1, 1, 2, 3, 5])):
+            ops.append(key(XK[rng.choice(["Left", "Left", "KP_Left"])], rng.choice([0, 0, 0, CTRL])))
+        for _ in range(rng.choice([1, 1, 2, 3])):
+            ops.append(key(XK["BackSpace"], rng.choice([CTRL, CTRL, SHIFT])))
+            if rng.random() < 0.5:
+                ops.append(rng.choice(["getctx", "getinput", "getcaret"]))
+        ops.append(rng.choice([key(XK["Escape"]), key(XK["space"]), "clear", "commit", key(ord("a"))]))
+    return ops
